@@ -6,6 +6,11 @@ from runner import Prop, Stream
 import c02
 
 
+INSTANCE_COLS = {"lmd_last_cache_update", "localtime", "peer_section", "peer_addr", "peer_status", "peer_bytes_send", "peer_bytes_received",
+                 "peer_queries", "peer_last_error", "peer_last_update", "peer_last_online", "peer_response_time", "configtool", "thruk",
+                 "host_lmd_last_cache_update", "service_lmd_last_cache_update"}
+
+
 def valid(inp):
     """1..3 well-formed backends (C02's input shape, no malformed reply classes, exactly one status row),
     one name per backend, queries are single GET requests"""
@@ -21,8 +26,25 @@ def valid(inp):
             status = [t for t in b["tables"] if t["name"] == "status"][0]
             if len(status["rows"]) != 1:
                 return False
+            # consistent data: services, comments and downtimes name existing hosts (a filter on host_custom_variables of
+            # an object without host takes lmd down: C09's finding, not this property's)
+            hosts = [t for t in b["tables"] if t["name"] == "hosts"][0]
+            names = set(r[hosts["cols"].index("name")] for r in hosts["rows"])
+            for tn in ("services", "comments", "downtimes"):
+                tab = [t for t in b["tables"] if t["name"] == tn][0]
+                hi = tab["cols"].index("host_name")
+                if any(r[hi] not in names for r in tab["rows"]):
+                    return False
         for q in inp["queries"]:
             if not (isinstance(q, str) and q.startswith("GET ") and q.endswith("\n\n") and q.count("\n\n") == 1):
+                return False
+            lines = q.rstrip("\n").split("\n")
+            # a request without Columns:/Stats: answers every column, also the instance columns (timestamps of the
+            # answering process) that legitimately differ between two daemons
+            if not any(l.startswith("Columns:") or l.startswith("Stats:") for l in lines[1:]):
+                return False
+            words = set(q.replace("\n", " ").split(" "))
+            if words & INSTANCE_COLS or lines[0].strip() in ("GET sites", "GET backends", "GET columns", "GET tables", "GET log"):
                 return False
         if len(inp.get("optimize", [])) > len(inp["queries"]):
             return False
